@@ -69,7 +69,8 @@ Needed(sc, n) == LET g == Grid(sc) IN
 
 \* ---- plans
 Leaves == IF Q THEN {"m", "moff", "mpin", "rate", "sotoff"} ELSE {"m", "moff", "mneg", "mpin", "mstart", "mend", "rate", "sotoff", "ratepin"}
-Wraps  == {"id", "abs", "sumby", "sumwo", "neg", "paren", "binl", "binr", "topk", "scal"}
+\* histq, ts, clamp: functions the engine builds on code paths of their own
+Wraps  == {"id", "abs", "sumby", "sumwo", "neg", "paren", "binl", "binr", "topk", "scal", "histq", "ts", "clamp"}
 LeafPlan(l) ==
   CASE l = "m"      -> <<Sel(<<Metric("m")>>)>>
     [] l = "moff"   -> <<SelOff(<<Metric("m")>>, 2)>>
@@ -90,6 +91,9 @@ Wrap(w, p) ==
     [] w = "binl"  -> Join(p, <<Sel(<<Metric("n")>>)>>, LAMBDA a, b : BinM("+", a, b, FALSE, "1:1", TRUE, <<"a">>, <<>>))
     [] w = "binr"  -> Join(<<Num(2)>>, p, LAMBDA a, b : Bin("*", a, b))
     [] w = "topk"  -> Join(<<Sel(<<Metric("p")>>), Fn("scalar", <<1>>)>>, p, LAMBDA a, b : Agg("topk", TRUE, <<"a">>, <<a, b>>))
+    [] w = "histq" -> Join(<<NumS("0.9")>>, p, LAMBDA a, b : Fn("histogram_quantile", <<a, b>>))
+    [] w = "ts"    -> Over(p, LAMBDA c : Fn("timestamp", <<c>>))
+    [] w = "clamp" -> p \o <<Num(1), Num(9), Fn("clamp", <<Len(p), Len(p) + 1, Len(p) + 2>>)>>
     [] w = "scal"  -> Join(p, Over(<<Sel(<<Metric("p")>>)>>, LAMBDA c : Fn("scalar", <<c>>)), LAMBDA a, b : Fn("clamp_min", <<a, b>>))
 
 VARIABLE g
